@@ -5,6 +5,7 @@ import Driver.Kv
 import Driver.Db
 import Driver.Writer
 import Driver.Conc
+import Driver.Sw
 open Driver
 
 structure DState where
@@ -15,6 +16,7 @@ structure DState where
   db : Fjall.Db.DbL := {}
   wr : WrSession := {}
   conc : ConcSession := {}
+  sw : SwSession := {}
 
 def step (s : DState) (line : String) : DState × String :=
   let ws := words line
@@ -38,7 +40,10 @@ def step (s : DState) (line : String) : DState × String :=
             | none =>
               match concCmd s.conc ws with
               | some (c, out) => ({ s with conc := c }, out)
-              | none => (s, "bad-op")
+              | none =>
+                match swCmd s.sw ws with
+                | some (w, out) => ({ s with sw := w }, out)
+                | none => (s, "bad-op")
 
 partial def loop (h : IO.FS.Stream) (out : IO.FS.Stream) (s : DState) : IO Unit := do
   let line ← h.getLine
